@@ -241,3 +241,26 @@ M("c18-repr-under-pool-lock", "C18", A + "connection_pool.py",
   "        closing_connections = []\n        logger = __import__(\"logging\").getLogger(\"httpcore.connection_pool\")\n        logger.debug(\"assignment pass on %r\", self)\n\n        # First we handle cleaning up any connections that are closed,", "C18.R9")
 M("c12-zero-stream-limit-applied", "C12", A + "http2.py", "            if new_max_streams and new_max_streams != self._max_streams:", "            if new_max_streams != self._max_streams:", "C12.R11")
 M("c07-socks-availability-on-proxy-scheme", "C07", A + "socks_proxy.py", "                and (self._remote_origin.scheme == b\"https\" or not self._http1)", "                and (self._proxy_origin.scheme == b\"https\" or not self._http1)", "C07.R11")
+# ---- round 8 (h): load-bearing code removed ----------------------------------------------------------------
+M("c12-read-recheck-always-true", "C12,C07,C02", A + "http2.py", "            if stream_id is None or not self._events.get(stream_id):", "            if stream_id is None or stream_id:", None)
+_RECHECK_OLD = ("        async with self._read_lock:\n            if self._connection_terminated is not None:\n                last_stream_id = self._connection_terminated.last_stream_id\n"
+                "                if stream_id and last_stream_id and stream_id > last_stream_id:\n                    self._request_count -= 1\n                    raise ConnectionNotAvailable()\n"
+                "                raise RemoteProtocolError(self._connection_terminated)\n\n"
+                "            # This conditional is a bit icky. We don't want to block reading if we've\n            # actually got an event to return for a given stream. We need to do that\n"
+                "            # check *within* the atomic read lock. Though it also need to be optional,\n            # because when we call it from `_wait_for_outgoing_flow` we *do* want to\n"
+                "            # block until we've available flow control, event when we have events\n            # pending for the stream ID we're attempting to send on.\n"
+                "            if stream_id is None or not self._events.get(stream_id):\n")
+_RECHECK_NEW = ("        nothing_pending = stream_id is None or not self._events.get(stream_id)\n        async with self._read_lock:\n            if self._connection_terminated is not None:\n"
+                "                last_stream_id = self._connection_terminated.last_stream_id\n"
+                "                if stream_id and last_stream_id and stream_id > last_stream_id:\n                    self._request_count -= 1\n                    raise ConnectionNotAvailable()\n"
+                "                raise RemoteProtocolError(self._connection_terminated)\n\n            if nothing_pending:\n")
+M("c07-read-recheck-hoisted", "C07,C02", A + "http2.py", _RECHECK_OLD, _RECHECK_NEW, None)
+M("c12-double-close-double-release", "C12", A + "http2.py", "        if not self._closed:\n            self._closed = True\n            kwargs = {\"stream_id\": self._stream_id}",
+  "        if True:\n            self._closed = True\n            kwargs = {\"stream_id\": self._stream_id}", "C12.R13")
+M("c18-event-inf-unconverted", "C18", "httpcore/_synchronization.py", "        if timeout == float(\"inf\"):  # pragma: no cover\n            timeout = None\n", "", "C18.R10")
+M("c03-target-written-into-url", "C03", "httpcore/_models.py",
+  "            self.url = URL(\n                scheme=self.url.scheme,\n                host=self.url.host,\n                port=self.url.port,\n                target=self.extensions[\"target\"],\n            )",
+  "            self.url.target = enforce_bytes(self.extensions[\"target\"], name=\"target\")", "C03.R12")
+M("c09-expiry-none-skips-readability", "C09", A + "http11.py",
+  "        now = time.monotonic()\n        keepalive_expired = self._expire_at is not None and now > self._expire_at\n",
+  "        if self._expire_at is None:\n            return False\n        now = time.monotonic()\n        keepalive_expired = now > self._expire_at\n", "C09.R4")
